@@ -224,21 +224,21 @@ func strs(p *GPath) []string {
 }
 
 func expectedCount(ops []Op, target string) int {
-	st := map[string]bool{}
+	st := map[string]int64{} // key -> timestamp of the newest accepted update
 	for _, o := range ops {
 		if o.Subscribe || o.T != target || o.N == nil {
 			continue
 		}
-		upd := map[string]bool{}
 		for _, u := range o.N.Updates {
 			k := strings.Join(keyOf(o.N.Prefix, u.Path), "\x00")
-			st[k] = true
-			upd[k] = true
+			if t0, ok := st[k]; !ok || o.N.TS >= t0 {
+				st[k] = o.N.TS
+			}
 		}
 		for _, d := range o.N.Deletes {
 			dk := keyOf(o.N.Prefix, d)
-			for k := range st {
-				if upd[k] {
+			for k, t0 := range st {
+				if t0 >= o.N.TS {
 					continue
 				}
 				ks := strings.Split(k, "\x00")
